@@ -60,7 +60,12 @@ def handleRun (req : List String) (obs : List String) : String :=
           (if i.dirs == m.dirs then [] else ["dirs"]) ++
           (if i.files == m.files then [] else ["files"])) ++
         (if out.resolutionOk then [] else ["resolution-not-admissible"])
-      let fails := TB.Check.checkRun Sha1.sha1 r inp out i
+      -- a run without faults, crash or partial writes that the model completes must not fail in the implementation:
+      -- an error (or a refusal to start) without a cause in the arguments or the tree is a failure of C16's "a run
+      -- with loadable torrents and valid directories returns normally"
+      let spurious := if r.faults.isEmpty && r.crash.isNone && r.partialPaths.isEmpty && m.result == "ok" && i.result == "err"
+        then ["c16-fails-without-cause"] else []
+      let fails := TB.Check.checkRun Sha1.sha1 r inp out i ++ spurious
       verdict diffs.isEmpty fails ((if diffs.isEmpty then "" else "DIFF:" ++ ",".intercalate diffs ++ " ") ++ showRunObs m)
 
 end TB.Streams
